@@ -97,10 +97,10 @@ m('c10-revert-f06', 'C10', FR, '                // the scratch builder must not 
 m('c10-parser-reset-forgets-isdec', 'C10', WD, '        self.dec_part.reset();\n        self.is_dec = false;', '        self.dec_part.reset();', 'V12|V')
 m('c10-en-no-reset', ['C10', 'C18'], EN, '                {\n                    b.reset()\n                } else {', '                {\n                } else {', 'B7-SCRATCH')
 # --- C11
-m('c11-revert-f07', 'C11', WD, '|| self.lang.is_linking(token.text_lowercase()))', '|| self.lang.is_linking(text))', 'B9-CASE')
-m('c11-text2digits-no-lower', ['C11', 'C07'], WD, 'lang.exec_group(text.to_lowercase().split_whitespace())', 'lang.exec_group(text.split_whitespace())', 'B')
-m('c11-token-lowercase-raw', 'C11', TK, 'lowercase: text.to_lowercase(),', 'lowercase: text.to_owned(),', 'B9-CASE')
-m('c11-push-raw-text', 'C11', WD, '        let lo_token = token.text_lowercase();', '        let lo_token = token.text();', 'B9-CASE')
+m('c11-revert-f07', 'C11', WD, '|| self.lang.is_linking(token.text_lowercase()))', '|| self.lang.is_linking(text))', 'V|S11')
+m('c11-text2digits-no-lower', ['C11'], WD, 'lang.exec_group(text.to_lowercase().split_whitespace())', 'lang.exec_group(text.split_whitespace())', 'V|B10')
+m('c11-token-lowercase-raw', 'C11', TK, 'lowercase: text.to_lowercase(),', 'lowercase: text.to_owned(),', 'V|S11')
+m('c11-push-raw-text', 'C11', WD, '        let lo_token = token.text_lowercase();', '        let lo_token = token.text();', 'V|S11')
 # --- C12
 m('c12-revert-f08', 'C12', DS, '        if self.buffer.is_empty() {\n            // nothing placed yet: every position is free\n            return true;\n        }\n', '', 'B1-PANIC-SITES')
 m('c12-revert-f09', 'C12', DS, '    pub fn push(&mut self, digits: &[u8]) -> Result<(), Error> {\n        if self.frozen {\n            return Err(Error::Frozen);\n        }\n', '    pub fn push(&mut self, digits: &[u8]) -> Result<(), Error> {\n', 'B4-FROZEN')
@@ -136,7 +136,7 @@ m('c16-to-string-drops-zeros', ['C16', 'C12'], DS, '        let mut res = "0".re
 # --- C17
 m('c17-revert-f14', 'C17', EN, 'all(|c| c.is_whitespace())', 'all(|c| c.is_ascii_whitespace())', 'B10-WS')
 m('c17-is-whitespace-ascii', 'C17', WD, 'token.chars().all(char::is_whitespace)', 'token.chars().all(|c| c.is_ascii_whitespace())', 'B10-WS')
-m('c17-split-space', ['C17', 'C07', 'C11'], WD, 'text.to_lowercase().split_whitespace()', "text.to_lowercase().split(' ').filter(|w| !w.is_empty())", 'B')
+m('c17-split-space', ['C17'], WD, 'text.to_lowercase().split_whitespace()', "text.to_lowercase().split(' ').filter(|w| !w.is_empty())", 'V|B10')
 m('c17-trim-space', 'C17', WD, 'text.trim() != "."', "text.trim_matches(' ') != \".\"", 'B10-WS')
 m('c17-sep-stops-at-space', ['C17', 'C02'], TK, '                if c.is_alphanumeric() {\n                    break *pos;\n                }\n                self.chars.next();\n            } else {\n                break self.source.len();\n            }\n        }\n    }\n}',
   '                if c.is_alphanumeric() || *c == \'\\u{a0}\' {\n                    break *pos;\n                }\n                self.chars.next();\n            } else {\n                break self.source.len();\n            }\n        }\n    }\n}', 'V02')
